@@ -858,6 +858,66 @@ func (r *FnRun) evalCall(x SCall, env *specEnv) Val {
 			}
 		}
 		return TFalse
+	case "has", "visited", "mapget":
+		// has(m, k): key k is in the map held by the local variable (or
+		// parameter) m. visited(m, k): the iteration "range m" has already
+		// handed out key k (loop invariants of that iteration). mapget(m, k):
+		// the value stored under k (meaningful only where has(m, k)).
+		id, isIdent := x.Args[0].(SIdent)
+		if env.fr == nil {
+			// evaluated outside the function whose variables it names (a call site)
+			sfail("%s: unknown identifier: %s(…) speaks about the callee's own maps", env.what, x.Fun)
+		}
+		if len(x.Args) != 2 || (x.Fun == "visited" && !isIdent) {
+			sfail("%s: %s(m, k) takes a map variable (or field) and a key", env.what, x.Fun)
+		}
+		mt := specExprType(env.fr.fn, x.Args[0])
+		if mt == nil {
+			sfail("%s: %s: cannot tell the type of the map expression", env.what, x.Fun)
+		}
+		if _, ok := under(mt).(*types.Map); !ok {
+			sfail("%s: %s: not a map", env.what, x.Fun)
+		}
+		k := r.keyTerm(r.evalSpec(x.Args[1], env))
+		if x.Fun == "has" {
+			m := termOf(r.evalSpec(x.Args[0], env))
+			_, dom := r.mapDom(env.st, mt)
+			return Select(Select(dom, m), k)
+		}
+		if x.Fun == "mapget" {
+			m := termOf(r.evalSpec(x.Args[0], env))
+			_, vt := r.mapKeys(mt)
+			return r.loadTypedNoAssume(vt, "", func(path string, s Sort) Term {
+				_, arr := r.mapValArr(env.st, mt, path, s)
+				return Select(Select(arr, m), k)
+			})
+		}
+		var found *ssa.Range
+		for _, b := range env.fr.fn.Blocks {
+			for _, in := range b.Instrs {
+				rng, ok := in.(*ssa.Range)
+				if !ok {
+					continue
+				}
+				if u, ok := rng.X.(*ssa.UnOp); ok {
+					if a, ok := u.X.(*ssa.Alloc); ok && a.Comment == id.Name {
+						if found != nil {
+							sfail("%s: visited(%s, …): more than one iteration over %s", env.what, id.Name, id.Name)
+						}
+						found = rng
+					}
+				}
+			}
+		}
+		if found == nil {
+			sfail("%s: visited(%s, …): no iteration over %s", env.what, id.Name, id.Name)
+		}
+		vis, ok := env.st.ghost[iterKey(found)]
+		if !ok {
+			// the iteration has not begun on this path
+			return TFalse
+		}
+		return Select(vis, k)
 	case "base":
 		// identity of the backing array of a slice (0 for a nil slice)
 		v := r.evalSpec(x.Args[0], env)
